@@ -26,6 +26,9 @@ type B struct {
 	Gaps  []int64   `json:"gaps,omitempty"` // batch form: gaps between the points of the batch (ns)
 	// Miss: 0 = every point carries the aggregated field, 1 = none does, 2 = every second one does not
 	Miss int `json:"miss,omitempty"`
+	// Back (stream form without window, not for the running transformations): the run arrives
+	// late - its time lies before the time of the group's previous run
+	Back bool `json:"back,omitempty"`
 }
 
 func (b B) n() int {
@@ -133,6 +136,9 @@ func gen(t *rapid.T) Case {
 			b.Float = groupFloat[b.G]
 		}
 		b.Miss = rapid.SampledFrom([]int{0, 0, 0, 0, 0, 1, 2}).Draw(t, "miss")
+		if c.Stream && c.Win == nil && !isTransform(c.Fn) {
+			b.Back = rapid.IntRange(0, 5).Draw(t, "back") == 0
+		}
 		lo := 0
 		if c.Stream {
 			lo = 1
@@ -245,6 +251,11 @@ func (c Case) materialise() (pts []kit.Pt, bts []kit.Bt, lbs []LB) {
 		start := t0 + int64(k)*10*sec
 		if c.Stream && start <= lastT[b.G] {
 			start = lastT[b.G] + sec
+		}
+		if b.Back && lastT[b.G] != 0 {
+			// an out-of-order run: a run is a maximal sequence of consecutive points with equal
+			// time, so an older point ends the current run like a newer one does
+			start = lastT[b.G] - sec/2
 		}
 		bt := kit.Bt{Name: "m", Points: []kit.Pt{}}
 		if c.GroupBy {
@@ -894,7 +905,7 @@ var assumptions = []string{
 	"percentile uses InfluxDB's nearest-rank index floor(n*p/100+0.5)-1 and emits nothing when that index is out of range",
 	"a batch holds one field type; the type may change between batches (and between equal-time runs in stream form); stream transformations see one field type per group",
 	"selectors (first last min max percentile) may carry the selected point's own tags and other fields; all other functions emit exactly the field named by as() and the group's tags",
-	"stream form: the output for the last equal-time run of a group may be absent (nothing marks its end)",
+	"stream form: the output for the last equal-time run of a group may be absent (nothing marks its end); a run is a maximal sequence of consecutive points of a group with equal time - a point with an older time ends the current run like one with a newer time (late runs are generated for the single-value and batch-valued functions, not for the running transformations)",
 	"a point that lacks the aggregated field contributes no value (it is reported and skipped); a batch none of whose points carries the field is an empty batch; window().periodCount(P).everyCount(E) emits after every E-th point of a group its last min(n, P) points, stamped with the last one's time (C03's subject)",
 	"usePointTimes is generated for selectors and top/bottom only (what the property names)",
 	"elapsed/difference/cumulativeSum/movingAverage see strictly increasing timestamps per group (an InfluxQL series has unique timestamps; the reducers skip a point that does not advance time)",
